@@ -3,11 +3,72 @@
 import json, os
 HERE = os.path.dirname(os.path.dirname(os.path.abspath(__file__)))
 TECH = 'contract-based deductive verification: CBMC 6.11 code contracts (goto-instrument --dfcc) on C extracted mechanically from the clang AST of /repo on every run'
+STEP = ' History-level wording ("after any history", "at every point") is obtained from these per-operation contracts by a paper induction recorded as an assumption in the evidence; CBMC has no inductive heap predicates.'
 CLAIMED = {
+ 'C01': dict(
+   text='Proof of the inductive step, per operation and for all pre-states: free_memory_list / ordered_free_memory_list allocate, allocate(n), deallocate, insert (nodes leave the list before they are returned; frame = list bookkeeping, the returned bytes and link words of free neighbours only), the array search loops (loop contracts over an oracle list: the run unlinked is exactly the run returned), fixed_memory_stack / memory_stack allocate, try_allocate, unwind (results inside [top,end), frame = the bumped range), iteration_allocator<N> (regions pairwise disjoint and inside the block, allocate touches only the current region), memory_block_stack push/top (user memory starts after the header), memory_pool<node_pool> allocate_block/allocate_node, memory_arena allocate_block.' + STEP,
+   note='Not covered: small_free_memory_list chunk operations, memory_pool_collection, static_allocator, lowlevel/virtual memory allocators, temporary_allocator. Memory-writing insert loops are parametric-bounded (node size from an enumerated family, block <= 4 KiB quick / 64 KiB thorough) and kept out of the proof count. Oracle list for the search loops; upstream block source abstract (fresh disjoint blocks).',
+   ref='8 (C01)'),
+ 'C02': dict(
+   text='Proof: fixed_memory_stack::allocate, memory_stack::allocate/try_allocate, iteration_allocator::allocate/try_allocate return null-or-aligned pointers inside [old top + fence, end) with the top advanced by exactly size + fences, for every size_t size and every power-of-two alignment (also above max_alignment, also after block growth); list_search_array / xor_list_search_array (loop contracts) return an address-contiguous run of exactly ceil(bytes/node_size) nodes; free_memory_list::insert_impl places node k at mem + k*node_size; free_memory_list::alignment; aligned_allocator forwards max(min_alignment, alignment); memory_pool traits reject over-aligned / over-sized requests.',
+   note='Not covered: small_free_memory_list node placement, memory_pool_collection, lowlevel_allocator. Search loops over an oracle list inside one flat arena < 2^40 bytes; run-length facts per node size from an enumerated family (parametric-bounded).',
+   ref='8 (C02)'),
+ 'C03': dict(
+   text='Proof with exceptions as a ghost flag: every throwing allocation function under contract (fixed/memory_stack, iteration_allocator, memory_arena::allocate_block cached and uncached, memory_pool<node_pool> allocate_block/allocate_node and its allocator_traits) ensures "no exception => non-null result", "exception => upstream exception propagated unchanged, or the library family (bad_allocation_size / out_of_memory) with the registered handler called exactly once first", over the full size_t domain; every try_ function ensures no exception, no upstream call, state unchanged on null. The upstream block source fails nondeterministically at every call.',
+   note='Not covered: memory_pool_collection, static_allocator, lowlevel_allocator, joint_allocator, temporary_allocator growth. Handlers abstract (counted).',
+   ref='8 (C03)'),
+ 'C04': dict(
+   text='Proof of step + round-trip facts: free_memory_list and ordered_free_memory_list allocate()/deallocate(p) move capacity by exactly one and re-link the node; allocate(n) removes exactly ceil(n/node_size) nodes, deallocate(p,n) gives back exactly ceil(n/node_size) (found and fixed F-3); interval::size; empty() <=> no node; memory_pool<node_pool>::allocate_node asks the arena only when the free list is empty; deallocate_node / traits deallocate_node return the node to the list.' + STEP,
+   note='Not covered: small_free_memory_list, memory_pool<array_pool/small_node_pool> instantiations, memory_pool_collection. Array paths per node size from an enumerated family (parametric-bounded). Window contracts: acyclicity and capacity_ == number of reachable nodes are paper-level.',
+   ref='8 (C04)'),
+ 'C05': dict(
+   text='Proof of step: memory_block_stack push/pop/steal_top/top under contract plus lemmas pop(push(b)) == b and steal-there-and-back is the identity; memory_arena<BlockAllocator,cached|uncached>::allocate_block (cache used before the block source; upstream failure leaves used/cached lists unchanged), deallocate_block (uncached: exactly the popped block, with the size it was obtained with, goes upstream), memory_stack::unwind keeps dropped blocks in the cache; iteration_allocator constructor / destructor / move assignment obtain and release exactly one block with matching size (found and fixed F-4); release order recorded in a ghost log. Whole-arena destructor scenarios (up to 3 blocks) are bounded stand-ins.' + STEP,
+   note='Not covered: growing/fixed/static/virtual block allocators own bodies (abstract BlockAllocator assumed: fresh block or exception), temporary_block_allocator. Reverse order over unbounded histories is paper-level.',
+   ref='8 (C05)'),
+ 'C06': dict(
+   text='Proof: memory_stack::unwind(m) for every valid marker (same block or any deeper block; loop contract on the block-dropping loop) re-establishes top() == m: block index, top pointer, remaining capacity; dropped blocks go to the cache and none upstream; fixed_memory_stack::unwind; top(); capacity_left(); marker operator< is the lexicographic order on (index, top); arena swap / move keep the cached blocks.',
+   note='"Same requests yield the same addresses" follows from allocate being a function of (top, end, request) (C02 contracts) plus the cache lemma in C05 (paper composition). Arena abstracted by contracts proved in the arena units. temporary_allocator nesting is C14.',
+   ref='8 (C06)'),
+ 'C07': dict(
+   text='Proof for N = 3 in the quick tier and N = 1..5 in the thorough tier (one extraction per N): block_start/block_end, the region lemma (block_start(0) == memory, block_start(N) == memory + size, monotone: regions disjoint and inside the block, for every block size including sizes not divisible by N), constructor places stack i at block_start(i) (found and fixed F-5), allocate/try_allocate touch only the current region and keep its top inside it, next_iteration advances cur_ modulo N and resets exactly the new current region to full capacity.',
+   note='Block size <= SIZE_MAX/N assumed (i*size must not wrap). "Valid until N calls of next_iteration" follows from the step contracts by paper induction over the iteration count. Abstract block source.',
+   ref='8 (C07)'),
+ 'C08': dict(
+   text='Proof: memory_block::contains is exactly mem <= p < mem + size; memory_pool<node_pool>::try_deallocate_node returns arena.owns(p) and changes nothing when it is false; fallback_allocator<D,F> (all eight members incl. the composable ones): the default allocator is asked first with the same kind/count/size/alignment, and exactly when it refuses is the fallback asked, once, with the same shape (found and fixed F-6: misnamed composable array member) -- with leaves that answer true exactly for their own memory the release reaches the allocator that served the allocation, at any nesting depth by modularity. memory_block_stack::owns over a list is a bounded stand-in (<= 3 blocks).',
+   note='"Owns" is what the code tests (inside the arena\'s used blocks), not "handed out and not yet released". memory_pool_collection / memory_stack / iteration_allocator composable traits not covered.',
+   ref='8 (C08)'),
+ 'C09': dict(
+   text='Proof over abstract leaf allocators with a ghost call log: every member (allocate/deallocate node/array, try_ variants) of aligned_allocator, allocator_storage<direct_storage,mutex> (thread_safe_allocator), allocator_storage<reference_storage,no_mutex>, tracked_allocator (tracker called exactly once, on success only; found and fixed F-13), fallback_allocator, binary_segregator<threshold_segregatable> (same predicate of the same arguments on both sides), std_allocator::allocate/deallocate (n == 1 <-> node on both sides), allocator_deallocator (node and array form): exactly one leaf request of the same kind, same count/size, alignment >= requested, result passed through; release to the same leaf object with the same parameters. Each wrapper is proved against the RawAllocator interface contract of its inner allocator, so arbitrary nesting follows by modularity.',
+   note='Not covered (virtual dispatch / libstdc++ internals are outside the extractor): type-erased reference_storage<any_allocator>, memory_resource_adapter, memory_resource_allocator, allocate_unique/allocate_shared plumbing, allocator_deleter destructor calls, polymorphic deleters.',
+   ref='8 (C09)'),
+ 'C10': dict(
+   text='Kernel only (the sentence a contract can be attached to): std_allocator<T,A> over a stateful A compares equal exactly when both reference the same allocator object; allocate/deallocate go to that referenced object with the node/array decision mirrored; rebinding (converting constructor) and select_on_container_copy_construction keep the reference. Hence equal allocators release into the same allocator object.',
+   note='NOT covered and not claimable by this family here: the container sentence (libstdc++ container/shared_ptr/unique_ptr code honouring the propagation typedefs over all operation sequences) and the X_node_size<T> sentence (produced at configure time by cmake/get_node_size.cpp). Stateless and shared-reference storage forms are not instantiated.',
+   ref='8 (C10)'),
+ 'C12': dict(
+   text='Proof of step: move constructor, move assignment and swap of free_memory_list, ordered_free_memory_list (all first/last-node shapes: sentinel link words re-pointed to the new proxies), fixed_memory_stack, memory_block_stack, memory_arena (cached/uncached), iteration_allocator (assignment releases the target\'s block exactly once, F-4 fixed; destructor of a moved-from object releases nothing): the new owner holds exactly the old owner\'s fields, the moved-from object is the empty representation, the frame is the two objects plus link words inside free nodes.' + STEP,
+   note='Not covered: small_free_memory_list, free_list_array, memory_pool, memory_pool_collection, memory_stack (implicit members), block allocators, virtual_block_allocator (F-9 read-only finding, not under contract).',
+   ref='8 (C12)'),
+ 'C13': dict(
+   text='Proof of the lock discipline (sequential): every forwarding member of allocator_storage<direct_storage<A>, Mutex> (throwing, composable; node/array) reaches the wrapped allocator only with the ghost mutex_held == 1 (precondition of every leaf member), takes the mutex exactly once and has released it on every exit including when the leaf or lock() throws; the lock() proxy is handed out with the mutex held, releases it exactly once on destruction, and a moved-from proxy releases nothing.',
+   note='That a correct mutex then serialises all schedules, data-race freedom of stateless allocators, and the size-query members (max_node_size etc.) are not mechanised; stateless leaf (no_mutex selection) not instantiated.',
+   ref='8 (C13)'),
+ 'C15': dict(
+   text='Proof: debug_handle_memory_leak calls the registered leak handler exactly once with the given amount; memory_pool<node_pool> allocator_traits allocate_node/deallocate_node call on_allocate / on_deallocate with the same quantity, only after a successful allocation.',
+   note='Thin: object_leak_checker constructor/destructor/move and the global (stateless) checker are not yet under contract; listed in evidence under functions_under_contract only as far as proved.',
+   ref='8 (C15)'),
+ 'C16': dict(
+   text='Proof: debug_handle_invalid_ptr calls the registered invalid-pointer handler exactly once with the offending pointer and then stops the program before returning to the caller (so no state update follows a report).',
+   note='Thin: the individual checks in small_free_memory_list::deallocate, ordered_free_memory_list (double free), memory_stack::unwind and the LIFO block sources are not yet under contract.',
+   ref='8 (C16)'),
  'C17': dict(
    text='Proof (configurations base/dbg8/dbg16): debug_fill, debug_is_filled (loop contract: returns the FIRST differing byte), debug_fill_new, debug_fill_internal under contract; debug_fill_free checked through harness-encoded contracts: a corrupted fence byte is always reported with the node, its size and the first corrupted byte of that fence; intact fences are never reported whatever was written in bounds; free-list allocate/deallocate carry the new/freed patterns on every byte but the link word.',
    note='Trusted: memset as modelled by CBMC; registered handlers abstract (call counted, arguments recorded); regions <= 64 KiB; lowlevel_allocator/virtual_memory_allocator fence placement is covered only as far as listed in the evidence (functions_under_contract).',
    ref='8 (C17)'),
+ 'C18': dict(
+   text='Proof over the ranges named in the property: min_block_size lemmas for free_memory_list, ordered_free_memory_list and small_free_memory_list (node size 1..512, count 1..2000: inserting a block of that size yields at least n nodes; found and fixed F-10), capacity counters move by exactly +-1 / +-ceil(n/node_size) / +floor(size/node_size) in every list operation, memory_block_stack::push/top (usable size == block size - implementation_offset), memory_arena::next_block_size, memory_pool<node_pool> allocate_block / capacity_left / allocate_node, memory_stack::capacity_left, and rejection of over-sized requests at the traits entry points.',
+   note='min_block_size lemmas are bounded to the property\'s own range (larger ranges did not finish) and listed as bounded; memory_pool_collection capacity functions not covered.',
+   ref='8 (C18)'),
  'C19': dict(
    text='Proof: every function of the size/alignment arithmetic (is_valid_alignment, round_up_to_multiple_of_alignment, align_offset x2, is_aligned, alignment_for, ilog2_base, ilog2, ilog2_ceil, log2/identity access policies, free_list_array::get/max_node_size for all six list x policy instantiations) is under a contract whose postcondition is the mathematical definition, discharged over the full 64-bit domain (no loops, no bounds).',
    note='Trusted: clang AST, cxx2c extraction, CBMC + its model of __builtin_clzll. free_list_array::get relies on the bucket invariant node_size_[j] == max(size_from_index(j+min), min_element_size), which is the postcondition of the constructor loop (proved separately, parametric-bounded) and of the free-list constructors; bucket count for identity buckets assumed <= 4096.',
@@ -41,6 +102,10 @@ def main():
              notes='exit 0 = all obligations discharged; exit 1 = VIOLATION (named obligation failed); exit 2 = undecided (timeout/tool failure/extraction break), never a violation.')
     json.dump(m, open(os.path.join(HERE, 'MANIFEST.json'), 'w'), indent=1)
 
-NA = {}
+NA = {
+ 'C11': 'not built yet: joint_allocator.hpp functions (joint_stack, joint_ptr, joint_allocator, joint_array) are not under contract; no other technique is substituted',
+ 'C14': 'not built yet for the sequential kernel (temporary_allocator ctor/dtor, temporary_stack_list); the schedule half (thread interleavings, cross-thread reuse) cannot be expressed by contracts in this family at all',
+ 'C20': 'not built yet: exception/RAII paths of detail::construct and joint_array::builder are not under contract; allocate_unique/allocate_shared guards live in libstdc++ (outside the extractor)',
+}
 if __name__ == '__main__':
     main()
